@@ -18,6 +18,47 @@ pub fn run() {
         }
         return;
     }
+    if args.len() >= 5 && args[2] == "walk" {
+        // llgverif probe walk '<lark>' 't1,t2,...' : commit the tokens, print the mask after each
+        let mut ws: Vec<Vec<u8>> = (0..=255u8).map(|b| vec![b]).collect();
+        ws.push(b"\xFF<|tool|>".to_vec());
+        ws.push(b"\xFF[123]".to_vec());
+        ws.push(b"\xFF<|eos|>".to_vec());
+        let env = make_env(&ws, 258, false);
+        match new_matcher(&env, &args[3].replace("\\n", "\n"), &[]) {
+            Err(e) => println!("rejected: {e}"),
+            Ok(mut m) => {
+                println!("mask: {:?}", m.compute_mask().map(|v| mask_list(&v)).map_err(|e| e.to_string().lines().next().unwrap_or("").to_string()));
+                for t in args[4].split(',').filter(|x| !x.is_empty()) {
+                    let t: u32 = t.parse().unwrap();
+                    println!("commit {t}: {:?}", m.consume_token(t).map_err(|e| e.to_string().lines().next().unwrap_or("").to_string()));
+                    println!("mask: {:?}", m.compute_mask().map(|v| mask_list(&v)).map_err(|e| e.to_string().lines().next().unwrap_or("").to_string()));
+                }
+            }
+        }
+        return;
+    }
+    if args.len() >= 4 && args[2] == "special" {
+        // single bytes + one special token + EOS
+        let mut ws: Vec<Vec<u8>> = (0..=255u8).map(|b| vec![b]).collect();
+        ws.push(b"\xFF<|tool|>".to_vec());
+        ws.push(b"\xFF<|eos|>".to_vec());
+        let env = make_env(&ws, 257, false);
+        match new_matcher(&env, &args[3].replace("\\n", "\n"), &[]) {
+            Err(e) => println!("rejected: {e}"),
+            Ok(mut m) => {
+                for step in 0..3 {
+                    let r = m.compute_mask().map(|v| mask_list(&v));
+                    let l = r.unwrap_or_default();
+                    println!("step {step}: special 256 in mask: {}, marker byte 255 in mask: {}, eos: {}, size {}", l.contains(&256), l.contains(&255), l.contains(&257), l.len());
+                    if m.consume_token(b'b' as u32).is_err() { break; }
+                }
+                let mut c = m.deep_clone();
+                println!("commit special: {:?}", c.consume_token(256).map_err(|e| e.to_string().lines().next().unwrap_or("").to_string()));
+            }
+        }
+        return;
+    }
     if args.len() >= 4 && args[2] == "lark" {
         let (ws, eos) = single_byte_vocab();
         let env = make_env(&ws, eos, false);
